@@ -359,3 +359,271 @@ func ruleFreshCommitQueuePerTerm(c *eng.Ctx) {
 	w := q.Find()
 	c.Check(w == nil, "a term of leadership starts with an empty commit queue", p.Pos(fn.Pos()), "p.commitQueue = queue.New(…) on every path to the start of the commit loop", "startReplicating can start the commit loop on a queue it did not make ("+w.String()+"): pending acks of an earlier term of leadership survive — after the server lost and regained the leadership, a publisher is told its message at offset N is committed when another message was stored and committed there")
 }
+
+// ruleHealthCheckPeriod (R02.7 extension): a replicator starts with lastCaughtUp = now, so a replica counts as caught up for
+// one lag period after the leader started replicating to it — whether it has fetched anything or not. That is sound only
+// because the first health check comes a full lag period later. The check timer is therefore armed, and re-armed, with the
+// same r.maxLagTime the out-of-sync comparison uses; a shorter period re-admits a replica that is outside the in-sync set
+// without it having fetched a byte.
+func ruleHealthCheckPeriod(c *eng.Ctx) {
+	p := c.P
+	fn := c.Fn("server.(*replicator).tick")
+	if fn == nil {
+		return
+	}
+	isLag := func(v ssa.Value) bool { return eng.LoadNamed("maxLagTime", nil)(v) }
+	nt := eng.CallsIn(fn, "time.NewTimer")
+	ct := eng.CallsIn(fn, "server.computeTick")
+	ok := len(nt) == 1 && isLag(nt[0].Common().Args[0])
+	for _, k := range ct {
+		a := k.Common().Args
+		if len(a) != 2 || !isLag(a[1]) {
+			ok = false
+		}
+	}
+	if len(nt) != 1 || len(ct) == 0 {
+		c.Unresolved("time.NewTimer / computeTick in replicator.tick")
+		return
+	}
+	c.Check(ok, "the replica health check runs once per lag period", p.Pos(fn.Pos()), "time.NewTimer(r.maxLagTime), computeTick(…, r.maxLagTime)", "the health-check timer of replicator.tick is not armed with r.maxLagTime: with a shorter period the first check of a term finds lastCaughtUp (initialised to the start of the term) younger than the lag limit and proposes to re-admit a replica that is outside the in-sync set and has fetched nothing — it becomes electable without the committed messages")
+}
+
+// ruleFailoverStatusBelongsToItsPartition (R07.7 extension): a failover status is created for one partition object and keeps
+// a pointer to it (quorum from its in-sync set, expiry removes its map key). It is therefore never filed under another
+// partition: every store into partitionFailovers (and groupFailovers) puts a status made by the constructor in the same
+// function under the key it was made for — or nil-deletes the key. Handing the status of a replaced partition object to its
+// replacement keeps counting witnesses against a frozen in-sync set and never expires them.
+func ruleFailoverStatusBelongsToItsPartition(c *eng.Ctx) {
+	p := c.P
+	n := 0
+	for _, tbl := range []string{"partitionFailovers", "groupFailovers"} {
+		f := p.Field("server", "metadataAPI", tbl)
+		if f == nil {
+			c.Unresolved("field metadataAPI." + tbl)
+			continue
+		}
+		for _, fn := range p.Funcs {
+			if !p.IsModuleFunc(fn) {
+				continue
+			}
+			eng.Instrs(fn, func(in ssa.Instruction) {
+				mu, ok := in.(*ssa.MapUpdate)
+				if !ok || !eng.Load(f, nil)(mu.Map) {
+					return
+				}
+				n++
+				v := eng.Strip(mu.Value)
+				call := eng.AsCall(v)
+				fresh := call != nil && strings.HasPrefix(eng.CalleeRef(&call.Call), "server.new") && strings.HasSuffix(eng.CalleeRef(&call.Call), "FailoverStatus")
+				c.Check(fresh, "a failover status is filed under the object it was made for ("+tbl+" in "+ir.FuncKey(ir.Outermost(fn))+")", c.Pos(mu), "the stored status is made by its constructor (new…FailoverStatus) in the same function", "a failover status that was not made here ("+eng.Describe(mu.Value)+") is stored into "+tbl+": a status belongs to the partition (group) object it was created for — under another key it counts old witnesses against a frozen in-sync set, and its expiry deletes the wrong entry, so the reports never expire")
+			})
+		}
+	}
+	if n == 0 {
+		c.Unresolved("stores into metadataAPI.partitionFailovers / groupFailovers")
+	}
+}
+
+// ruleReadAtAnswersFromTheFile (R03.12, shared with C01 and C10): segment.ReadAt answers with what the file says — or with
+// the closed / replaced sentinels. It does not decide "end of data" from the segment's own flags: the committed reader
+// issues zero-length reads at its limit (hwPos − pos == 0) and relies on them succeeding; an early io.EOF from a sealed
+// segment sends it on to the next segment before the watermark allows.
+func ruleReadAtAnswersFromTheFile(c *eng.Ctx) {
+	p := c.P
+	fn := c.Fn(cl + "(*segment).ReadAt")
+	if fn == nil {
+		return
+	}
+	ok, why, n := true, "", 0
+	for _, r := range eng.Returns(fn) {
+		rv := eng.RetVals(r)
+		if len(rv) != 2 {
+			continue
+		}
+		n++
+		e := eng.Strip(rv[1])
+		if ex, isEx := e.(*ssa.Extract); isEx {
+			if call := eng.AsCall(ex.Tuple); call != nil && eng.CalleeRef(&call.Call) == "os.File.ReadAt" {
+				continue
+			}
+		}
+		if g := globalLoad(e); g != nil && (strings.HasSuffix(g.Name(), "ErrSegmentClosed") || strings.HasSuffix(g.Name(), "ErrSegmentReplaced")) {
+			continue
+		}
+		ok, why = false, c.Pos(r)+": "+eng.Describe(rv[1])
+	}
+	c.Check(ok && n > 0, "a segment read is answered by the file", p.Pos(fn.Pos()), "ReadAt returns os.File.ReadAt's result, or ErrSegmentClosed / ErrSegmentReplaced", "segment.ReadAt answers a read itself ("+why+"): a read the file would have satisfied (a zero-length read at the committed reader's limit, a read at the end of a sealed segment that is written again after a truncation) comes back as an error, and the reader moves on past data it has not delivered")
+}
+
+// ruleEpochRecoveryAssignsEveryMissingEpoch (R05.8 extension): after a crash the epoch history can lack more than one epoch
+// (a replicated message set can span several epochs the follower has not seen). Recovery walks the log and assigns each:
+// the Assign call of recoverLeaderEpochs sits in a loop.
+func ruleEpochRecoveryAssignsEveryMissingEpoch(c *eng.Ctx) {
+	p := c.P
+	fn := c.Fn(cl + "(*commitLog).recoverLeaderEpochs")
+	if fn == nil {
+		return
+	}
+	as := eng.CallsIn(fn, cl+"leaderEpochCache.Assign")
+	if len(as) == 0 {
+		c.Unresolved("leaderEpochCache.Assign in recoverLeaderEpochs")
+		return
+	}
+	inLoop := false
+	for _, a := range as {
+		b := a.(ssa.Instruction).Block()
+		// b is in a cycle iff b is reachable from one of its successors
+		q := &eng.PathQuery{Fn: fn, FromAfter: []ssa.Instruction{a.(ssa.Instruction)}, Target: func(x ssa.Instruction) bool { return x == a.(ssa.Instruction) }}
+		if q.Find() != nil {
+			inLoop = true
+		}
+		_ = b
+	}
+	c.Check(inLoop, "recovery assigns every epoch missing from the history", p.Pos(fn.Pos()), "Assign is called once per missing epoch (in a loop)", "recoverLeaderEpochs calls Assign once: when the newest messages span more than one epoch that the checkpoint lacks (a replicated set that crossed two leader changes, then a crash before the first Assign) only one boundary is recovered, and the log answers a wrong end offset for the other epoch")
+}
+
+// ruleRebuildIndexAcceptsGaps (R05.8 extension, shared with C08): offsets inside a segment are not consecutive once the
+// segment was compacted (or replicated from a compacted leader). The index rebuild therefore never decides on the decoded
+// offset of a message set: the value only flows into the entry it describes.
+func ruleRebuildIndexAcceptsGaps(c *eng.Ctx) {
+	p := c.P
+	fn := c.Fn(cl + "(*segment).rebuildIndex")
+	if fn == nil {
+		return
+	}
+	// the decoded offset: Uint64 of headerBuf[0:8] (first fixed-width read of the header)
+	var offs []ssa.Value
+	eng.Instrs(fn, func(in ssa.Instruction) {
+		call, ok := in.(*ssa.Call)
+		if !ok || !strings.HasSuffix(eng.CalleeRef(&call.Call), "Uint64") || len(call.Call.Args) == 0 {
+			return
+		}
+		if sl, isSl := eng.Strip(call.Call.Args[len(call.Call.Args)-1]).(*ssa.Slice); isSl && (sl.Low == nil || eng.IntConst(0)(sl.Low)) {
+			offs = append(offs, call)
+		}
+	})
+	for _, cs := range eng.CallsIn(fn, cl+"messageSet.Offset") {
+		if v, isV := cs.(ssa.Value); isV {
+			offs = append(offs, v)
+		}
+	}
+	if len(offs) == 0 {
+		c.Unresolved("the decoded offset of a message set header in rebuildIndex")
+		return
+	}
+	bad := ""
+	var walk func(v ssa.Value, depth int)
+	seen := map[ssa.Value]bool{}
+	walk = func(v ssa.Value, depth int) {
+		if seen[v] || depth > 6 || v.Referrers() == nil {
+			return
+		}
+		seen[v] = true
+		for _, r := range *v.Referrers() {
+			switch x := r.(type) {
+			case *ssa.If:
+				bad = c.Pos(x)
+			case *ssa.BinOp:
+				walk(x, depth+1)
+			case *ssa.Convert:
+				walk(x, depth+1)
+			case *ssa.ChangeType:
+				walk(x, depth+1)
+			case *ssa.Phi:
+				walk(x, depth+1)
+			case *ssa.UnOp:
+				walk(x, depth+1)
+			}
+		}
+	}
+	for _, o := range offs {
+		walk(o, 0)
+	}
+	c.Check(bad == "", "the index rebuild does not decide on message offsets", p.Pos(fn.Pos()), "the decoded offset only flows into the rebuilt entry", "rebuildIndex branches on the decoded offset of a message set ("+bad+"): offsets in a compacted segment (or one replicated from a compacted leader) are not consecutive, so a rebuild after a crash stops at the first gap and setupIndex cuts the log there — every message after the gap is destroyed")
+}
+
+// rulePersistedReadonlyFollowsTheLog (R06.4 extension): the read-only flag has a run-time home (the commit log) and a
+// persisted one (Partition.Readonly, which snapshots, pause / resume and restarts rebuild the partition from). Wherever the
+// run-time flag is set to v, the persisted flag is v afterwards: the function stores Partition.Readonly = v, or v was read
+// from Partition.Readonly in the first place.
+func rulePersistedReadonlyFollowsTheLog(c *eng.Ctx) {
+	p := c.P
+	n := 0
+	for _, s := range eng.Index(p).Sites(cl+"CommitLog.SetReadonly", cl+"commitLog.SetReadonly") {
+		if !p.IsModuleFunc(s.Fn) || s.Fn.Pkg == nil || ir.Short(s.Fn.Pkg.Pkg.Path()) != "server" {
+			continue
+		}
+		n++
+		args := eng.AllArgs(s.Instr.(ssa.CallInstruction).Common())
+		v := args[len(args)-1]
+		fromProto := func(x ssa.Value) bool { f, _ := eng.FieldRead(x); return f != nil && f.Name() == "Readonly" }
+		ok := fromProto(v)
+		if !ok {
+			// a constant set behind a test of the persisted flag (if proto.Readonly { log.SetReadonly(true) })
+			if _, isC := eng.Strip(v).(*ssa.Const); isC {
+				es := eng.BoolEdges(s.Fn, func(x ssa.Value) bool { return fromProto(x) }, true)
+				if g, _ := eng.GuardedBy(s.Fn, s.Instr, es); g && len(es) > 0 {
+					ok = true
+				}
+			}
+		}
+		if !ok {
+			for _, st := range eng.FieldStores(s.Fn, func(fa *ssa.FieldAddr) bool { return eng.FieldNameOf(fa) == "Readonly" && strings.Contains(fa.X.Type().String(), "Partition") }) {
+				if eng.Strip(st.Val) == eng.Strip(v) {
+					ok = true
+				}
+			}
+		}
+		c.Check(ok, "the persisted read-only flag follows the log's in "+ir.FuncKey(ir.Outermost(s.Fn)), c.Pos(s.Instr), "Partition.Readonly = v next to log.SetReadonly(v) (or v read from Partition.Readonly)", "the commit log's read-only flag is set here without the persisted Partition.Readonly being given the same value: the partition is rebuilt from the persisted flag on resume after a pause, on restart and on restore, so the flag silently reverts (or comes back) there — servers on different sides of a snapshot end up disagreeing")
+	}
+	if n == 0 {
+		c.Unresolved("calls of CommitLog.SetReadonly in package server")
+	}
+}
+
+// ruleNewPartitionKnowsOnlyItsOwnProgress (R04.5 extension): a partition object built over an existing log knows how far ITS
+// log goes and nothing about the others: the in-sync entries it creates start at -1, except the server's own. Seeding every
+// entry with the local log end makes a leader that restarts (or resumes after a pause) believe its followers hold its whole
+// log — the watermark jumps past messages only the leader stores.
+func ruleNewPartitionKnowsOnlyItsOwnProgress(c *eng.Ctx) {
+	p := c.P
+	fn := c.Fn("server.(*Server).newPartition")
+	if fn == nil {
+		return
+	}
+	offF := p.Field("server", "replica", "offset")
+	n, ok, why := 0, true, ""
+	for _, g := range moduleReach(c, fn, 1) {
+		if ir.Outermost(g) != fn && g != fn {
+			// helpers extracted from newPartition are inlined by the normaliser; other callees are not constructors of p.isr
+			continue
+		}
+		for _, st := range eng.FieldStores(g, func(fa *ssa.FieldAddr) bool { return fieldIs(fa, offF) }) {
+			n++
+			v := eng.Strip(st.Val)
+			switch x := v.(type) {
+			case *ssa.Const:
+				if !eng.IntConst(-1)(x) {
+					ok, why = false, "a constant other than -1"
+				}
+			case *ssa.Phi:
+				has := false
+				for _, e := range x.Edges {
+					if eng.IntConst(-1)(e) {
+						has = true
+					}
+				}
+				if !has {
+					ok, why = false, eng.Describe(v)
+				}
+			default:
+				ok, why = false, eng.Describe(v)+" for every replica"
+			}
+		}
+	}
+	if n == 0 {
+		c.Unresolved("the replica offsets set up by newPartition")
+		return
+	}
+	c.Check(ok, "a new partition object knows only its own log end", p.Pos(fn.Pos()), "replica offsets start at -1 (the server's own at its log end)", "newPartition seeds the progress of in-sync replicas with "+why+": a leader that is rebuilt over a non-empty log (restart, resume after a pause) takes its followers to hold everything it holds, and the commit loop acknowledges and commits messages only the leader stores")
+}
